@@ -3,7 +3,9 @@
      common_helpers.html_escape(s)  (ombott), used by the last-resort page in Ombott.wsgi
    Both are chains of single-character str.replace calls.  The ombott chain is
    the one the translator read from the source (Gen.html_escape_chain); the
-   stdlib chain is pinned here and tied by the correspondence check.
+   stdlib chain is pinned here and tied by the correspondence check.  The
+   lemmas about the ombott chain (which change when the source does) live in
+   proofs/C20_escape.v so that this file always compiles.
    Main lemma: escape_safe -- the output contains no angle bracket and no single
    or double quote, and every ampersand in it begins one of the entities. *)
 From Verif Require Import lib.Base lib.Str.
@@ -154,22 +156,10 @@ Ltac chain_one c :=
 Lemma std_chain_one c : apply_chain std_chain [c] = esc1_std c.
 Proof. unfold esc1_std, std_chain. chain_one c. Qed.
 
-(* re-checked against the chain the translator read from common_helpers.py on
-   every build: an edited chain (dropped replace, '&' no longer first, other
-   entity text) breaks this proof *)
-Lemma ombott_chain_one c : apply_chain Gen.html_escape_chain [c] = esc1_ombott c.
-Proof. unfold esc1_ombott, Gen.html_escape_chain. chain_one c. Qed.
-
 Lemma html_escape_std_pointwise s : html_escape_std s = flat_map esc1_std s.
 Proof.
   unfold html_escape_std. rewrite apply_chain_pointwise.
   apply flat_map_ext. exact std_chain_one.
-Qed.
-
-Lemma html_escape_ombott_pointwise s : html_escape_ombott s = flat_map esc1_ombott s.
-Proof.
-  unfold html_escape_ombott. rewrite apply_chain_pointwise.
-  apply flat_map_ext. exact ombott_chain_one.
 Qed.
 
 Lemma esc1_std_closed c : closed_piece (esc1_std c).
@@ -183,22 +173,8 @@ Proof.
   apply closed_plain; unfold is_angle, is_quote; now rewrite ?E2, ?E3, ?E4, ?E5.
 Qed.
 
-Lemma esc1_ombott_closed c : closed_piece (esc1_ombott c).
-Proof.
-  unfold esc1_ombott.
-  destruct (N.eqb c 38) eqn:E1; [apply closed_entity; simpl; tauto|].
-  destruct (N.eqb c 60) eqn:E2; [apply closed_entity; simpl; tauto|].
-  destruct (N.eqb c 62) eqn:E3; [apply closed_entity; simpl; tauto|].
-  destruct (N.eqb c 34) eqn:E4; [apply closed_entity; simpl; tauto|].
-  destruct (N.eqb c 39) eqn:E5; [apply closed_entity; simpl; tauto|].
-  apply closed_plain; unfold is_angle, is_quote; now rewrite ?E2, ?E3, ?E4, ?E5.
-Qed.
-
 Lemma html_escape_std_closed s : closed_piece (html_escape_std s).
 Proof. rewrite html_escape_std_pointwise. apply closed_flat_map, esc1_std_closed. Qed.
-
-Lemma html_escape_ombott_closed s : closed_piece (html_escape_ombott s).
-Proof. rewrite html_escape_ombott_pointwise. apply closed_flat_map, esc1_ombott_closed. Qed.
 
 (* escape_safe: no angle bracket or quote in the output and every ampersand begins an entity *)
 Theorem escape_safe_std s :
@@ -209,22 +185,14 @@ Proof.
   unfold markup_safe in H. apply andb_true_iff in H. tauto.
 Qed.
 
-Theorem escape_safe_ombott s :
-  no_angle (html_escape_ombott s) = true /\ no_quote (html_escape_ombott s) = true
-  /\ amp_ok (html_escape_ombott s) = true.
+(* plain text is left alone *)
+Lemma markup_free_escape_std_id s : markup_free s = true -> html_escape_std s = s.
 Proof.
-  destruct (closed_markup_safe _ (html_escape_ombott_closed s)) as [H Q].
-  unfold markup_safe in H. apply andb_true_iff in H. tauto.
-Qed.
-
-(* plain text is left alone by both *)
-Lemma markup_free_escape_id s : markup_free s = true -> html_escape_std s = s /\ html_escape_ombott s = s.
-Proof.
-  intros H. rewrite html_escape_std_pointwise, html_escape_ombott_pointwise.
+  intros H. rewrite html_escape_std_pointwise.
   induction s as [|c s IH]; simpl; [auto|].
   simpl in H. apply andb_true_iff in H. destruct H as [Hc Hs].
-  destruct (IH Hs) as [I1 I2]. rewrite I1, I2.
-  unfold is_angle, is_quote in Hc. unfold esc1_std, esc1_ombott.
+  rewrite (IH Hs).
+  unfold is_angle, is_quote in Hc. unfold esc1_std.
   destruct (N.eqb c 38), (N.eqb c 60), (N.eqb c 62), (N.eqb c 34), (N.eqb c 39);
     simpl in Hc; rewrite ?orb_true_r in Hc; simpl in Hc; try discriminate; auto.
 Qed.
